@@ -4,7 +4,8 @@
    ASend / ADeliver / ABreak / AReconnect;  `settle fuel s` = drain what is in flight, and when the
    link is down afterwards: reconnect (same objects, retained journals and counters) + Logon + drain;
    `holds s` = the property decided on a settled state (quiescent, both ACTIVE, next_in of each =
-   next_out of the other, each application received exactly the peer's accepted sends, in order).
+   next_out of the other, each application received exactly the peer's accepted / committed sends, in order;
+   committed = the call raised from the dead transport after the message had been journaled, see Net.do_send).
 
    THE PROPERTY AT FULL STRENGTH is
        forall l : list action, exists f0, forall fuel, f0 <= fuel -> holds (settle fuel (run net0 l)) = true.
@@ -62,6 +63,31 @@ Theorem C07_single_break_B_to_A : forall (n k fuel : nat),
   /\ holds s = true.
 Proof. exact single_break_m_nk. Qed.
 Print Assumptions C07_single_break_B_to_A.
+
+(* A BREAK POINT INSIDE A SEND.  As C07_single_break (d delivered, k in flight), but the link dies while A's
+   application is inside one more send_msg: the message has been journaled under its number (send_msg journals
+   before it writes), write()/drain() raise, the caller sees an exception, nothing reaches the wire, both ends
+   disconnect.  The send is COMMITTED (`sa` lists accepted and committed sends): after reconnect + Logon + drain
+   B's application has received all d + k + 1 messages, the last one included, once and in order. *)
+Theorem C07_failed_write : forall (d k fuel : nat),
+  Z.of_nat (d + S k) + 3 <= 9223372036854775807 -> (S k + 4 <= fuel)%nat ->
+  let schedule :=
+    ([AReconnect; ADeliver SB; ADeliver SA] ++ repeat (ASend SA) (d + k) ++ repeat (ADeliver SB) d)
+    ++ [ASendFail SA] in
+  let s := settle fuel (run net0 schedule) in
+  quiescent s = true
+  /\ st (wa s) = ST_ACTIVE /\ st (wb s) = ST_ACTIVE
+  /\ nin (wa s) = nout (wb s) /\ nin (wb s) = nout (wa s)
+  /\ sa s = texts 1 (d + S k) /\ gb s = map Some (texts 1 (d + S k)) /\ sb s = [] /\ ga s = []
+  /\ holds s = true.
+Proof. exact failed_write. Qed.
+Print Assumptions C07_failed_write.
+
+Example C07_failed_write_instance :
+  let s := settle 20 (run net0 ([AReconnect; ADeliver SB; ADeliver SA; ASend SA; ASend SA; ADeliver SB; ASend SA; ASendFail SA])) in
+  holds s = true /\ sa s = texts 1 4 /\ gb s = map Some (texts 1 4) /\ nin (wb s) = 7 /\ nout (wa s) = 7.
+Proof. exact failed_write_instance. Qed.
+Print Assumptions C07_failed_write_instance.
 
 (* ANY NUMBER OF BREAKS of the following kind.  A sends n = d + k + 1 messages, d reach B, the link breaks with
    the last k + 1 in flight.  Then, for every j in the list js (one more break per element): reconnect + Logon,
